@@ -245,14 +245,64 @@ def run(chk, prog):
         "pop(next)": on_field("::pop", "_next_modulation"),
     }
     for nm, pr in ev.items():
+        if nm == "calcKick":
+            continue
         mn, mx = g.count_on_paths(pr)
         chk.check(mn == 1 and mx == 1, "R3", site, "apply(): exactly one %s on every path (min %s, max %s)" % (nm, mn, mx),
                   "DynamicRFKickMap::apply:count:%s:%s-%s" % (nm, mn, mx))
-    order = ["calcKick", "KickMap::apply", "emplace_back(past)", "pop(next)"]
-    for a, b in zip(order, order[1:]):
-        res = g.every_path_to(ev[b], ev[a])
-        chk.check(bool(res) and all(ok for _, ok in res), "R3", site, "apply(): %s precedes %s on every path" % (a, b),
-                  "DynamicRFKickMap::apply:order:%s<%s" % (a, b))
+    # Lifecycle typestate (constructor; apply; apply; ...).  Abstract state (d, u): d = (queue position of the entry the current kick was
+    # computed from) - (position of the queue front), None while no kick was computed from the queue; u = the same for the entry the
+    # transport of this call used.  calcKick: d := 0; pop: d, u decrease; KickMap::apply requires d == 0 and sets u := 0; the record
+    # (emplace_back of the front) requires u == 0.  Entry states of apply(): exits of the constructors and exits of apply() itself, on the
+    # paths on which the queue is not yet exhausted (R4: it holds one entry per loop iteration).  This is independent of where in the
+    # life cycle the kick is computed (at the start of apply() as today, or at its end for the next call).
+    def is_empty_test(c):
+        c = A.strip(c)
+        neg = False
+        while c.get("k") == "UnaryOperator" and c.get("op") == "!":
+            c, neg = A.strip(c["c"][0]), not neg
+        if c.get("k") == "CXXMemberCallExpr" and (c.get("callee") or "").endswith("::empty") and A.this_field(A.call_object(c)) == "_next_modulation":
+            return neg          # value of the condition when the queue is NOT empty
+        return None
+
+    def lifecycle(cfg, entry):
+        cfg = cfg.pruned(is_empty_test)
+
+        def tr(n, facts):
+            out = set()
+            for (d_, u_) in facts:
+                if ev["calcKick"](n):
+                    d_ = 0
+                if ev["pop(next)"](n):
+                    d_ = None if d_ is None else max(d_ - 1, -4)
+                    u_ = None if u_ is None else max(u_ - 1, -4)
+                if ev["KickMap::apply"](n):
+                    u_ = 0 if d_ == 0 else "bad"
+                out.add((d_, u_))
+            return frozenset(out)
+        res = cfg.forward(tr, set(), must=False, init=frozenset(entry))
+        return cfg, res
+    entry = set()
+    for c_ in prog.fns("vfps::DynamicRFKickMap::DynamicRFKickMap"):
+        chk.used(c_)
+        gc_, rc_ = lifecycle(Fl.CFG(c_), {(None, None)})
+        entry |= set(rc_[("out", gc_.exit)]) if ("out", gc_.exit) in rc_ else {(None, None)}
+    entry = {(d_, None) for d_, _ in entry}
+    for _ in range(4):
+        gl, rl = lifecycle(g, entry)
+        ex = {(d_, None) for d_, _ in rl.get(("out", gl.exit), frozenset())}
+        if ex <= entry:
+            break
+        entry |= ex
+    at_apply = [(b_, i_, n_, rl[(b_, i_)]) for (b_, i_, n_) in gl.events(ev["KickMap::apply"])]
+    badd = sorted({str(d_) for _, _, _, st_ in at_apply for d_, _ in st_ if d_ != 0})
+    chk.check(bool(at_apply) and not badd, "R3", site,
+              "whenever apply() transports the grid, the kick in effect was computed from the entry at the front of the queue (over the whole life cycle "
+              "constructor; apply; apply; ...; offsets of the kick's entry from the front: %s)" % (badd or ["0"]), "DynamicRFKickMap::apply:kick-entry:%s" % badd)
+    at_rec = [(b_, i_, n_, rl[(b_, i_)]) for (b_, i_, n_) in gl.events(ev["emplace_back(past)"])]
+    badu = sorted({str(u_) for _, _, _, st_ in at_rec for _, u_ in st_ if u_ != 0})
+    chk.check(bool(at_rec) and not badu, "R3", site, "the entry recorded by apply() is the one its transport used (no pop in between; offsets %s)" % (badu or ["0"]),
+              "DynamicRFKickMap::apply:recorded-entry:%s" % badu)
     eb = g.events(ev["emplace_back(past)"])
     if eb:
         arg = eb[0][2]["args"][0] if eb[0][2].get("args") else None
